@@ -98,3 +98,15 @@ impl<K: Copy + Ord, V: Clone> MapCollection<K, V> for MapList<K, V> {
         self.buffer.clear();
     }
 }
+#[cfg(ishape_rust_itree_verif)]
+impl<K: Copy, V: Clone> MapList<K, V> {
+    /// Verification hook: build a list directly from (key, value) pairs (the caller supplies them sorted by key).
+    pub fn verif_from_raw(entries: Vec<(K, V)>) -> Self {
+        Self { buffer: entries.into_iter().map(|(k, v)| Entity::new(k, v)).collect() }
+    }
+
+    /// Verification hook (read-only): the stored (key, value) pairs in storage order.
+    pub fn verif_snapshot(&self) -> Vec<(K, V)> {
+        self.buffer.iter().map(|e| (e.key, e.val.clone())).collect()
+    }
+}
